@@ -2,11 +2,11 @@ SPECIFICATION SeamSpec
 CONSTANTS
   Sess = {"s1","s2"}
   Reqs = {"r1"}
-  Gets = {"g1"}
+  Gets = {}
   Cfgs <- CfgPlainSse
   MaxEmit = 1
   MaxSreq = 1
-  MaxSa = 1
+  MaxSa = 0
   Gates = FALSE
 VIEW MCView
 CHECK_DEADLOCK FALSE
